@@ -26,10 +26,10 @@ import (
 // fixed rate, and sets the destination amount and denom.
 type swapController struct {
 	*controller.BaseController[core.ActionID]
-	w    *world.World
-	Num  int64
-	Den  int64
-	Seen []string // "amount denom" handed to each invocation
+	w     *world.World
+	Num   int64
+	Den   int64
+	Seen  []string // "amount denom" handed to each invocation
 	calls int
 }
 
